@@ -118,6 +118,32 @@ x
 (head (tail (tail (stream-filter odd? integers))))
 ;=> 5
 ===
+(define rx 5)
+(define rp (delay (begin (set! rx (+ rx 1)) rx)))
+(force rp)
+;=> 6
+(begin (set! rx 10) (force rp))
+;=> 6
+(define r1 (delay (begin (set! r1-first 'second) r1-first)))
+(define r1-first 'first)
+(define rf (let ((first? #t)) (delay (if first? (begin (set! first? #f) (force rf)) 'second))))
+(force rf)
+;=> second
+(define rq (let ((count 5)) (define (get-count) count) (define p (delay (if (<= count 0) count (begin (set! count (- count 1)) (force p) (set! count (+ count 2)) count)))) (list get-count p)))
+(define get-count (car rq))
+(define rp3 (car (cdr rq)))
+(get-count)
+;=> 5
+(force rp3)
+;=> 0
+(get-count)
+;=> 10
+(force rp3)
+;=> 0
+(define (rloop n) (if (= n 0) (delay 'end) (delay-force (rloop (- n 1)))))
+(force (rloop 20))
+;=> end
+===
 `(list ,(+ 1 2) 4)
 ;=> (list 3 4)
 (let ((name 'a)) `(list ,name ',name))
